@@ -432,8 +432,17 @@ func (rl *respDeserializer) getDouble(line string) (value respDouble, valid bool
 	return respDouble(value64), true
 }
 
+// the element count declared by the peer is only a hint for preallocation: never
+// reserve more elements than the unparsed part of the buffer could hold
+func (rl *respDeserializer) sizeHint(count int) int {
+	if remaining := len(rl.content) - rl.pos; count > remaining {
+		return remaining
+	}
+	return count
+}
+
 func (rl *respDeserializer) getNextArray(count int) (value respArray, valid bool) {
-	a := make(respArray, 0, count)
+	a := make(respArray, 0, rl.sizeHint(count))
 
 	for i := 0; i < count; i++ {
 		var v respValue
@@ -447,7 +456,7 @@ func (rl *respDeserializer) getNextArray(count int) (value respArray, valid bool
 }
 
 func (rl *respDeserializer) getNextMap(pairs int) (value respMap, valid bool) {
-	m := newRespMapSized(pairs)
+	m := newRespMapSized(rl.sizeHint(pairs))
 
 	for i := 0; i < pairs; i++ {
 		var k, v respValue
@@ -466,7 +475,7 @@ func (rl *respDeserializer) getNextMap(pairs int) (value respMap, valid bool) {
 }
 
 func (rl *respDeserializer) getNextAttributeMap(pairs int) (value respAttributeMap, valid bool) {
-	m := make(respAttributeMap, pairs)
+	m := make(respAttributeMap, rl.sizeHint(pairs))
 
 	for i := 0; i < pairs; i++ {
 		var k, v respValue
@@ -485,7 +494,7 @@ func (rl *respDeserializer) getNextAttributeMap(pairs int) (value respAttributeM
 }
 
 func (rl *respDeserializer) getNextSet(count int) (value respSet, valid bool) {
-	s := make(respSet, count)
+	s := make(respSet, rl.sizeHint(count))
 
 	for i := 0; i < count; i++ {
 		var v respValue
@@ -500,7 +509,7 @@ func (rl *respDeserializer) getNextSet(count int) (value respSet, valid bool) {
 }
 
 func (rl *respDeserializer) getNextPush(count int) (value respPush, valid bool) {
-	a := make([]respValue, 0, count)
+	a := make([]respValue, 0, rl.sizeHint(count))
 	p := respPush{}
 
 	var v respValue
